@@ -47,6 +47,8 @@ struct H5Snap {
 H5Snap h5_read(const std::string& file);
 
 // Write a file containing one float dataset at `path` (intermediate groups are created).
+bool h5_write_as(const std::string& file, const std::string& path,
+                 const std::vector<unsigned long long>& dims, const std::vector<float>& data, char stored);
 bool h5_write_f32(const std::string& file, const std::string& path,
                   const std::vector<unsigned long long>& dims, const std::vector<float>& data);
 
